@@ -16,6 +16,7 @@ package kgo
 //@   frozen g.cfg, g.cfg.autocommitDisable, g.cfg.autocommitGreedy
 //@   site store Offset#0 assert [one-past-the-last-returned-record] val == final.Offset + 1
 //@   site store Epoch#0 assert [with-that-records-leader-epoch] val == final.LeaderEpoch
+//@   site mapupdate uncommit#0 assert [new-partition-starts-with-nothing-to-commit] !had && val.head.Epoch == -1 && val.head.Offset == 0 && val.dirty == val.head && val.committed == val.head
 //@   site mapupdate uncommit#1 assert [dirty-is-that-position] mapkey == partition.Partition && val.dirty == set
 //@   site mapupdate uncommit#1 assert [head-not-advanced-under-default-autocommit] (!g.cfg.autocommitDisable && !g.cfg.autocommitGreedy) ==> (had && val.head == prev.head)
 //@   site mapupdate uncommit#1 assert [committed-untouched] had && val.committed == prev.committed
@@ -49,3 +50,15 @@ package kgo
 //@ func (g *groupConsumer) getUncommitted(dirty bool) (r map[string]map[int32]EpochOffset)
 //@   prop C08
 //@   site call getUncommittedLocked#0 assert [head-offsets-dirty-only-on-request] arg1 && arg2 == dirty
+
+// Who may promote, and who may look at dirty offsets - package-wide scans of the call sites, on every run:
+//  - undirtyUncommitted is called from PollRecords only (promotion happens at the start of a poll, nowhere else:
+//    not on leave, not on revoke, not from the commit loop);
+//  - getUncommittedLocked is asked for dirty offsets only by getUncommitted, which passes its own parameter on; and
+//    getUncommitted(true) is called by the read-only accessor UncommittedOffsets only - no committer ever sees dirty.
+//@ audit calls (*groupConsumer).undirtyUncommitted except (*Client).PollRecords assert [promotion-only-at-the-start-of-a-poll] false
+//@   prop C08
+//@ audit calls (*groupConsumer).getUncommittedLocked except (*groupConsumer).getUncommitted assert [no-committer-asks-for-dirty-offsets] !arg2
+//@   prop C08
+//@ audit calls (*groupConsumer).getUncommitted except (*Client).UncommittedOffsets assert [dirty-offsets-only-for-the-read-only-accessor] !arg1
+//@   prop C08
